@@ -69,6 +69,12 @@ theorem merge_on_present (old g : GObj) (k : String) :
   ⟨_, rfl, over_get _ _ k⟩
 theorem replace_on_present (old g : GObj) : ∃ r, absorb (some old) .replace g = .ok r ∧ r.data = g.data := ⟨_, rfl, rfl⟩
 
+/-- binaryData layers exactly like data: the overlay's entry wins, the base's other entries are kept -/
+theorem merge_on_present_bin (old g : GObj) (k : String) :
+    ∃ r, absorb (some old) .merge g = .ok r ∧ dget k r.bin = (dget k g.bin).orElse (fun _ => dget k old.bin) :=
+  ⟨_, rfl, over_get _ _ k⟩
+theorem replace_on_present_bin (old g : GObj) : ∃ r, absorb (some old) .replace g = .ok r ∧ r.bin = g.bin := ⟨_, rfl, rfl⟩
+
 /-- the dictionary a chain of layers defines: fold of overrides (`replace` forgets what was there) -/
 def foldSpec : Dict → List (Behavior × GObj) → Dict
   | d, [] => d
@@ -87,9 +93,9 @@ theorem layer_fold (base : GObj) (ops : List (Behavior × GObj))
     have hb := hops (b, g) (by simp)
     have hr : ∀ o ∈ r, o.1 = .merge ∨ o.1 = .replace := fun o ho => hops o (by simp [ho])
     rcases hb with hb | hb <;> simp only at hb <;> subst hb
-    · obtain ⟨x, h1, h2⟩ := ih { data := over base.data g.data, needsHash := base.needsHash && g.needsHash } hr
+    · obtain ⟨x, h1, h2⟩ := ih { data := over base.data g.data, needsHash := base.needsHash && g.needsHash, bin := over base.bin g.bin } hr
       exact ⟨x, by simpa [absorbAll, absorb] using h1, by simpa [foldSpec] using h2⟩
-    · obtain ⟨x, h1, h2⟩ := ih { data := g.data, needsHash := base.needsHash && g.needsHash } hr
+    · obtain ⟨x, h1, h2⟩ := ih { data := g.data, needsHash := base.needsHash && g.needsHash, bin := g.bin } hr
       exact ⟨x, by simpa [absorbAll, absorb] using h1, by simpa [foldSpec] using h2⟩
 
 /-- duplicate keys inside one generator are rejected -/
